@@ -211,6 +211,9 @@ Definition dir_guard15 (e : env) (fuel : nat) (jobs : list job) (jb : job) (to_d
            && is_struct e PSrc n1 && is_struct e PDst n2
            && match find_job jobs n1 with Some j => String.eqb (j_dst j) n2 | None => false end
        | SFunc _ =>
+           (* K_map_mapper_ptr_embedded: the method is selected through a pointer-embedded mapper *)
+           match j_mapper_hop jb with None => true | Some _ => false end
+           &&
            (* K_map_ctor_func_nil_receiver: FromX evaluates the mapper method on its (possibly nil) receiver *)
            (to_dir || negb (al_ctor w))
            (* K_map_ctor_func_last: with several methods of one signature the constructor takes the LAST, the passes the first *)
